@@ -155,7 +155,7 @@ def stepMuts (m : Manifest) (outF : File) : JobStep → List Mut
 def jobMuts (steps : List JobStep) (m : Manifest) (outF : File) : List Mut :=
   steps.flatMap (stepMuts m outF)
 
-inductive FKind | kill | crash | torn
+inductive FKind | kill | crash | torn | cancel
 deriving DecidableEq, Repr
 
 structure Fault where
@@ -201,7 +201,12 @@ def runJob (cfg : Cfg) (s : St) (ins : List Path) (flt : Option Fault) : St × O
   match flt with
   | none => (applyMuts s1 ms, .ok, ms.length)
   | some f =>
-    if f.pos ≥ 1000 then (applyMuts s1 ms, outcomeOf f.kind, ms.length)
+    -- graceful cancellation (SIGTERM → job ctx): before/during the merge the job gives up without any
+    -- storage mutation (pos ≥ 100); once the merged file exists, no storage call of the job consults
+    -- the context any more and the job runs to completion
+    if f.kind == .cancel then
+      (if f.pos ≥ 100 then (s1, .killed, 0) else (applyMuts s1 ms, .ok, ms.length))
+    else if f.pos ≥ 1000 then (applyMuts s1 ms, outcomeOf f.kind, ms.length)
     else if f.pos < ms.length then
       let pre := ms.take f.pos
       let extra := if f.kind == .torn then partialOf ms f.pos else []
